@@ -681,6 +681,7 @@ def _stress(ctx, part, info):
                "plain-sink-does-not-show-its-pipeline's-view" if "does not show the plaintext" in x else
                "pipeline-outcome-depends-on-the-other-pipelines-of-the-shared-event" if "this pipeline's sink" in x or "did not report sink" in x or "rejects every event holds" in x else
                "rebound-file-sinks-not-all-reopened" if "rebind-reopen:" in x else
+               "file-sink-keeps-writing-to-the-rotated-away-file" if "logrotate-create:" in x else
                "cloudevents-unsigned-after-signer-installed" if "late signer:" in x else
                "sink-shows-another-pipeline's-formatting-of-the-shared-event" if "formatting of the shared event:" in x else
                "file-sink-loses-or-duplicates-acknowledged-events" if "acknowledged events" in x else
@@ -830,6 +831,12 @@ def _conch_cases(ctx, part):
         cid = int(p.split()[1].rstrip(":"))
         rp = V.write_replay(ctx, "panic-%d" % cid, {"kind": "correspondence", "engine": "conch", "what": p, "case": cases.get(cid)})
         ctx.violations.append({"match": "panic:" + p.split("panic:", 1)[-1][:60], "replay": rp, "what": "Broker panicked under concurrent use: " + p})
+    rm = summ.get("reopen_misses") or []
+    if rm:
+        cid = int(rm[0].split()[1].rstrip(":"))
+        rp = V.write_replay(ctx, "conch-reopen-skips-a-linked-node", {"kind": "correspondence", "engine": "conch", "theorem_or_correspondence": "Broker.v Reopen (every object of every registered pipeline is reopened) probed once after quiescence",
+                                                                   "observed_value": rm[0], "cases_affected": len(rm), "case": cases.get(cid)})
+        ctx.violations.append({"match": "conch:reopen-skips-a-linked-node", "replay": rp, "what": "C04: " + rm[0][:400]})
     mism, failures, cv = _eval_conc(ctx, summ["files"])
     lits = {}
     for f in summ["files"]:     # keep the literal of failing cases for the replay
@@ -864,7 +871,7 @@ def _conch_cases(ctx, part):
     ctx.coverage["evaluations"] += summ["cases"]
     ctx.coverage["distinct_nontrivial"] += summ["distinct_nontrivial"]
     ctx.coverage["traces_validated_against_impl"] = ctx.coverage.get("traces_validated_against_impl", 0) + summ["cases"]
-    part.update({k: summ[k] for k in summ if k not in ("files", "panics")})
+    part.update({k: summ[k] for k in summ if k not in ("files", "panics", "reopen_misses")})
     part["send_x_pipeline_version_pairs"] = {"certainly_exactly_once": cv[0], "certainly_never": cv[1], "overlapping(0 or 1 accepted)": cv[2]}
     part["linearizability_searches_out_of_budget(inconclusive)"] = budget
     part["rule"] = ("2..8 goroutines run random registry histories (RegisterNode/RemoveNode/RegisterPipeline/RemovePipeline/RemovePipelineAndNodes/threshold setters) over "
